@@ -552,6 +552,10 @@ class PipelineCheck(Check):
         # the shipped default is maxiter=100000; a non-converging ARPACK run (counted, not judged) then costs minutes,
         # so the large value is only drawn where convergence is quick
         maxiter = 100000 if (tol >= 1e-8 and sel is not None and rng.random() < 0.3) else rng.choice([3000, 6000])
+        if maxiter == 100000 and n > 200:
+            # a non-converging shift-invert run on a wide-spectrum matrix of several hundred cells needs tens of minutes
+            # at the shipped maxiter (seen in the last thorough run): the shipped value is kept for small grids only
+            maxiter = 6000
         solver = {"tol": tol, "maxiter": maxiter, "which": which, "sigma": sigma, "sigma_rel": sigma_rel,
                   "k": k, "seeds": [rng.randrange(2 ** 32) for _ in range(rng.choice([1, 2, 3]))]}
         solver["one_tool"] = rng.random() < 0.4
